@@ -1,15 +1,20 @@
 #!/bin/bash
-# eval_seeds.sh [ids...] : apply each seeded change to /repo, run the quick check of its property, undo; log to /verif/seeded/<id>/detect.txt
+# eval_seeds.sh [-t tier] [-p PROP] [ids...] : for each seeded change, make a scratch worktree of /repo, apply the patch there, run the check of its
+# property against that worktree (SLU_REPO) with evidence/replays redirected (VERIF_OUT), log to /verif/seeded/<id>/detect.txt, remove the worktree.
+# /repo itself and /verif/evidence are never touched.
 cd /verif
+TIER=quick; PROPOVR=""
+while getopts "t:p:" o; do case $o in t) TIER=$OPTARG;; p) PROPOVR=$OPTARG;; esac; done; shift $((OPTIND-1))
 for d in ${@:-$(ls seeded)}; do
-  P=$(echo $d | cut -c1-3)
-  git -C /repo checkout -- . 2>/dev/null
-  git -C /repo apply /verif/seeded/$d/patch.diff || { echo "$d: patch does not apply"; continue; }
+  P=${PROPOVR:-$(echo $d | cut -c1-3)}
+  W=/tmp/se_$d; O=/tmp/se_${d}_out; rm -rf $W $O; git -C /repo worktree prune
+  git -C /repo worktree add -q --detach $W HEAD || { echo "$d: worktree failed"; continue; }
+  git -C $W apply /verif/seeded/$d/patch.diff || { echo "$d: patch does not apply"; git -C /repo worktree remove --force $W; continue; }
   t0=$(date +%s)
-  timeout 1500 ./bin/check $P --tier quick > /tmp/seed_$d.log 2>&1; rc=$?
-  git -C /repo checkout -- .
-  nv=$(grep -c "^VIOLATION property=$P" /tmp/seed_$d.log)
-  echo "$d: check $P exit=$rc violations=$nv time=$(( $(date +%s) - t0 ))s" | tee /verif/seeded/$d/detect.txt
-  grep -A1 "^VIOLATION" /tmp/seed_$d.log | grep -v "^--" | head -4 | cut -c1-300 >> /verif/seeded/$d/detect.txt
+  SLU_REPO=$W VERIF_OUT=$O timeout 3000 ./bin/check $P --tier $TIER > /tmp/seed_${d}_$P.log 2>&1; rc=$?
+  nv=$(grep -c "^VIOLATION property=$P" /tmp/seed_${d}_$P.log)
+  F=/verif/seeded/$d/detect.txt; [ -n "$PROPOVR" ] && F=/verif/seeded/$d/detect_$P.txt
+  echo "$d: check $P --tier $TIER exit=$rc violations=$nv time=$(( $(date +%s) - t0 ))s" | tee $F
+  grep -A1 "^VIOLATION" /tmp/seed_${d}_$P.log | grep -v "^--" | head -4 | cut -c1-300 | sed "s#$W#/repo#g; s#$O#/verif#g" >> $F
+  git -C /repo worktree remove --force $W; rm -rf $O
 done
-git -C /repo status --short | grep -v _build
